@@ -34,6 +34,8 @@ struct C10 : Harness {
             if (prior) {
                 int l0 = mant ? 16 : bs * *irange(1, tkentry ? 2 : 3);
                 p.push_back(setkey(l0, 7, *gbytes(l0), fn));
+                // a tweak in place before the call under test: a rejected call must leave it (and the schedule it is folded into) alone
+                if (tkentry && *chance(70)) { int tl = *irange(1, bs); p.push_back(mkop(opn(kind, "set_tweak")).set("s", 0).set("tweak", *gbytes(tl)).set("len", tl)); }
                 if (kind_is_ctr(kind)) p.push_back(mkop(opn(kind, "set_counter")).set("s", 0).set("ctr", *gbytes(bs)).set("len", bs));
                 p.push_back(probe(kind, bs));
                 if (kind_is_ctr(kind)) p.push_back(mkop(opn(kind, "set_counter")).set("s", 0).setnull("ctr").set("len", 0));
@@ -48,6 +50,7 @@ struct C10 : Harness {
             p.push_back(k);
             bool valid_len = mant ? (len == 16 && rounds >= 5 && rounds <= 8) : ((unsigned)len >= (unsigned)bs && (unsigned)len <= (unsigned)(bs * (tkentry ? 2 : 3)));
             if (prior || valid_len) {
+                if (tkentry && *chance(50)) { int tl = *irange(1, bs); p.push_back(mkop(opn(kind, "set_tweak")).set("s", 0).set("tweak", *gbytes(tl)).set("len", tl)); }
                 if (kind_is_ctr(kind)) p.push_back(mkop(opn(kind, "set_counter")).set("s", 0).setnull("ctr").set("len", 0));
                 p.push_back(probe(kind, bs));
             }
